@@ -116,8 +116,15 @@ def check(repo: Repo, rep: Report) -> None:
     md = gin.params[3] if len(gin.params) > 3 else "merged_disposable"
     for r_ in [x for x in sites(gsub) if isinstance(x.node, ast.Return)]:
         v_ = r_.node.value
+        def expand(a_):
+            """a local handed to the composite stands for its (single) definition in this function"""
+            if isinstance(a_, ast.Name):
+                ds = [x.node.value for x in sites(gsub) if isinstance(x.node, ast.Assign) and isinstance(x.node.targets[0], ast.Name) and x.node.targets[0].id == a_.id]
+                if len(ds) == 1:
+                    return ds[0]
+            return a_
         holds = isinstance(v_, ast.Call) and call_name(v_) == "CompositeDisposable" and any(
-            any(isinstance(y, ast.Attribute) and y.attr == "disposable" and u(y.value) == md for y in ast.walk(a_)) for a_ in v_.args) and any(
+            any(isinstance(y, ast.Attribute) and y.attr == "disposable" and u(y.value) == md for y in ast.walk(expand(a_))) for a_ in v_.args) and any(
             any(is_subscribe_call_(y) for y in ast.walk(a_)) or isinstance(a_, ast.Name) for a_ in v_.args)
         only_md = all(all((isinstance(y, ast.Name) and y.id == md) or not isinstance(y, (ast.Name, ast.Attribute)) or u(y) == md for y in ast.walk(e_)) for e_, _p in r_.ctx.guards)
         rep.ob("G6-group-subscription-counted", gsub, f"`{short(r_.node, 70)}` holds a reference of the shared source", (holds and only_md) or
